@@ -26,6 +26,7 @@
 #include "loaders/loader.h"
 #include "effects.h"
 #include "mixer.h"
+#include "player.h"
 
 /* ------------------------------------------------------------------ */
 /* virtual.c is compiled into this TU with the table-changing entry   */
@@ -748,7 +749,7 @@ static int run_case(uint64_t cs, int nframes, const char *modname)
 	static const int rates[] = { 4000, 4000, 8000, 11025, 22050, 44100, 48000, 49170, 49170 };
 	static const double tfs[] = { 0.1, 0.25, 0.5, 1.0, 1.0, 2.0, 3.9, 4.0, 7.5, 10.0, 10.0, 25.0, 100.0 };
 	int rate, format, voices, i, ret, fails = 0, prev_loop = -1, stopped = 0, ends = 0;
-	int tf_mode, tf_called = 0, speed0;
+	int tf_mode, tf_called = 0, speed0, pending_delay = 0, inject_pending = 0;
 	int synth = !strcmp(modname, "@synth");
 	char desc[256] = "";
 	int pre[NST], post[NST];
@@ -786,7 +787,10 @@ static int run_case(uint64_t cs, int nframes, const char *modname)
 		return -1;
 	}
 	dump_module(ctx);
-	printf("D wf\nE w ?\n");
+	if (ctx->m.mod.len > 0)
+		printf("D wf\nE w ?\n");
+	else
+		printf("N unplayable 1\n");	/* every order skipped: xmp_start_player set len = 0, no frame can succeed */
 	/* start-up correspondence */
 	get_state(ctx, post);
 	printf("D start %d\n", speed0);
@@ -816,7 +820,6 @@ static int run_case(uint64_t cs, int nframes, const char *modname)
 
 	for (i = 0; i < nframes; i++) {
 		int nctl = 0;
-		int injected = 0;
 		/* control calls and injected events between frames */
 		if (vrng_chance(stopped ? 60 : 9)) {
 			nctl = vrng_range(1, 3);
@@ -826,7 +829,7 @@ static int run_case(uint64_t cs, int nframes, const char *modname)
 		}
 		if (vrng_chance(6)) {
 			do_inject(c, ctx);
-			injected = 1;
+			inject_pending = 1;
 		}
 		if (tf_mode == 2 && vrng_chance(2)) {
 			if (xmp_set_tempo_factor(c, tfs[vrng_below(13)]) == 0)
@@ -834,6 +837,14 @@ static int run_case(uint64_t cs, int nframes, const char *modname)
 			g_tfcalls++;
 		}
 
+		/* a delayed event (EDx) pending on any channel may be read by play_channel after the ST2.6 step */
+		{
+			int k;
+			pending_delay = 0;
+			for (k = 0; k < ctx->p.virt.virt_channels; k++)
+				if (ctx->p.xc_data[k].delay > 0)
+					pending_delay = 1;
+		}
 		get_state(ctx, pre);
 		g_in_frame = 1;
 		g_mid_taken = 0;
@@ -858,10 +869,11 @@ static int run_case(uint64_t cs, int nframes, const char *modname)
 			fails += oracle(c, ctx, i, rate, format, tf_called, &prev_loop, synth ? desc : modname);
 			monitor_effrange(post, i);
 			/* ST2.6 step: speed must be the byte selected by the toggled state */
-			if (post[3] == 0 && post[7] != 0 && !injected && !g_mid_taken) {
+			if (post[3] == 0 && post[7] != 0 && !inject_pending && !g_mid_taken && !pending_delay) {
 				printf("D st26 %d\nE t %d %d\n", post[7] ^ 0x10000, post[4], post[7]);
 				g_st26++;
 			}
+			inject_pending = 0;	/* inject_event consumed every pending event */
 			ends = 0;
 		} else if (ret == -XMP_END) {
 			printf("E k fin\n");
